@@ -11,13 +11,15 @@
     * spec level (`Model/Occ.lean`): `occ_shift` (whole structure moved by any vector), `occ_wrap` (individual atoms
       moved by lattice vectors: only the image vectors change), `occ_perm` (atoms listed in another order: keys are
       mapped through the permutation) — statements about the occurrence SET the search is supposed to return.
-  NOT proved (stretch, see theorems/C03.json): `occ_pattern_rigid`, `find_keys_eq_occ_partial` (find = Occ under
-  OracleAligns + unambiguity), `occ_replicate`.  The link "search result = Occ" is what the correspondence run and the
+      `occ_pattern_rigid` (pattern moved by a rotation + translation).
+  NOT proved (stretch, see theorems/C03.json): `find_keys_eq_occ_partial` (find = Occ under OracleAligns +
+  unambiguity), `occ_replicate`.  The link "search result = Occ" is what the correspondence run and the
   metamorphic oracle of harness/props/c03.py validate.
 -/
 import MofunModel.Proofs.FindCompleteGroup
 import MofunModel.Proofs.OccHints
 import MofunModel.Proofs.OccLemmas
+import MofunModel.Proofs.OccPattern
 
 namespace Mofun
 
@@ -107,6 +109,13 @@ theorem occ_perm (inp inp' : FindInput) (σ : Nat → Nat) (hr : Renamed inp inp
     (h : Occ inp epsSq key) : Occ inp' epsSq (sortNat (key.map σ)) :=
   occ_renamed inp inp' σ hr epsSq key h
 
+/-- **occ_pattern_rigid.** Replacing the pattern `P` by `Rm·P + tm` (`Rm` orthogonal with determinant one) leaves
+    `Occ` unchanged. -/
+theorem occ_pattern_rigid (inp : FindInput) (Rm : Mat3) (tm : Vec3) (hRm : Rm.IsProperRotation)
+    (hRmT : Rm.transpose.IsProperRotation) (epsSq : Rat) (key : List Nat) :
+    Occ (inp.movePattern Rm tm) epsSq key ↔ Occ inp epsSq key :=
+  occ_movePattern_iff inp Rm tm hRm hRmT epsSq key
+
 /-! ## non-vacuity -/
 
 /-- pattern whose FIRST atom is an end point of the longest axis: the hint `(0, None, None)` resolves to (0, 2) -/
@@ -143,5 +152,10 @@ example : Occ c03Sym 0 [0, 1] := by
     have : k < 2 := hk
     have : k = 0 ∨ k = 1 := by omega
     rcases this with rfl | rfl <;> decide +kernel
+
+/-- a quarter turn about z is a proper rotation in the sense of `occ_pattern_rigid` (both guards) -/
+example : (⟨⟨0, -1, 0⟩, ⟨1, 0, 0⟩, ⟨0, 0, 1⟩⟩ : Mat3).IsProperRotation ∧
+    (⟨⟨0, -1, 0⟩, ⟨1, 0, 0⟩, ⟨0, 0, 1⟩⟩ : Mat3).transpose.IsProperRotation := by
+  unfold Mat3.IsProperRotation Mat3.transpose; decide +kernel
 
 end Mofun
